@@ -243,9 +243,10 @@ func (i *Int) Neg(a kyber.Scalar) kyber.Scalar {
 		panic("invalid argument")
 	}
 	newNat.Int = *ai.M.Nat()
-	i.V.Set(newNat)
+	// compute M - a before touching the receiver: i may be a
+	res := compatible.NewInt(0).Sub(newNat, &ai.V, ai.M)
 	i.M = ai.M
-	i.V = *compatible.NewInt(0).Sub(&i.V, &ai.V, i.M)
+	i.V = *res
 
 	return i
 }
